@@ -21,7 +21,14 @@ RULE = ('gin-machine/macros: 1-3 parse phases; macro definitions, uses (%m) and 
         'one entry, the earlier key and place, the later value) and to a list (TypeError); under a macro key stand literals, '
         '@g(), macros and unbound macros (within one item the value is evaluated before the key). Keys that are equal already '
         'when the statement is PARSED (the same macro or reference written twice, 1 / True) are one item of the bound value; a '
-        'literal key that cannot be hashed makes the statement raise TypeError.')
+        'literal key that cannot be hashed makes the statement raise TypeError. Constant HISTORIES: a constant is referenced by '
+        'a proper suffix that names it uniquely when the statement is parsed (as a parameter value, inside a list / dict, as a '
+        'dict key, through a macro bound to it), THEN further constants sharing that suffix are defined (a longer or another '
+        'prefix; inside interactive_mode() also the bare suffix itself, a name between the two, or the same name again), then '
+        'the earlier reference is used and the same spelling is parsed once more. From the op list alone: the abbreviation '
+        'names a constant when it is PARSED, every later use delivers the object defined under that full name (never an '
+        'error, never the newcomer), a call all of whose bindings the op list decides must not raise; duplicates are errors '
+        'only outside interactive mode.')
 TRUSTED_BASE = c01.TRUSTED_BASE
 ASSUMPTIONS = []
 
@@ -35,7 +42,10 @@ CONSTS = ['K', 'a.K', 'b.a.K', 'x.Y', 'Y', 'c.Z']
 # hashed (TypeError at the call).  's1/hk' and 's2/hk' differ only in the scope-like prefix.
 KEYMACROS = ['hk', 'kk', 's1/hk', 's2/hk']
 KEYCONSTS = [('q.KA', 'KA', 'ka'), ('q.r.KB', 'r.KB', 'kb'), ('q.r.KC', 'KC', 'kc')]
-SIMPLE_OPS = {'pbind', 'call', 'with', 'constant', 'query', 'finalize', 'locked', 'dumpcalls', 'dumpconfig'}
+SIMPLE_OPS = {'pbind', 'call', 'with', 'constant', 'query', 'finalize', 'locked', 'dumpcalls', 'dumpconfig', 'interactive'}
+# constant histories: a first constant, referenced by a proper suffix; later constants that share that suffix
+STORY_CONSTS = ['a.K', 'b.a.K', 'x.Y', 'c.Z', 'p.q.W', 'u.v.w.V']
+STORY_PREFIXES = ['d', 'e.f', 'zz']
 
 
 def key_value(rng, m, helper):
@@ -151,7 +161,7 @@ def as_parsed(v, consts, sels):
 class Bound:
   """one successful binding as the op list shows it: the JSON value as the parser builds it (equal dict keys merged); the
   macro uses in it (name, evaluated); and, for the %names that named a constant when the binding was parsed, that
-  constant's (canonical) value"""
+  constant's full name (the abbreviation is resolved THEN, once: constants defined later do not change what it names)"""
 
   def __init__(self, v, consts, sels=()):
     self.undecided = False
@@ -164,16 +174,29 @@ class Bound:
     for nm, ev in json_macro_refs(v):
       cm = const_match(nm, consts)
       if cm:
-        self.cres[nm] = consts[cm[0]]
+        if len(cm) > 1:
+          self.undecided = True      # ambiguous: the statement must have been rejected (judged where it is parsed)
+        self.cres[nm] = cm[0]
       else:
         self.refs.append((nm, ev))
 
 
-def expect(b, binds, sels, runs, depth=0, v=None):
+def hashable(x):
+  """may the canonical value x be a dict key"""
+  if isinstance(x, T):
+    if x.tag in ('L', 'D'):
+      return False
+    if x.tag == 'T':
+      return all(hashable(a) for a in x.args)
+  return True
+
+
+def expect(b, binds, sels, runs, depth=0, v=None, consts=None):
   """the canonical form of what a consumer must receive for the binding b, from the property text: every %m is the value
   of the LAST definition of m (binds[('macro', m)]), evaluated anew at this use; a dict literal is built item by item.
-  `runs` collects one entry per evaluated reference to a registered configurable.  Raises Skip where the op list does not
-  decide, KeyError(name) for a macro that no definition binds."""
+  `runs` collects one entry per evaluated reference to a registered configurable.  `consts`: the constants defined so far
+  (full name -> canonical value); a %name that named a constant when its statement was parsed is the object defined under
+  that full name.  Raises Skip where the op list does not decide, KeyError(name) for a macro that no definition binds."""
   if depth > 8 or b.undecided:
     raise Skip
   v = b.v if v is None else v
@@ -181,13 +204,15 @@ def expect(b, binds, sels, runs, depth=0, v=None):
   if t == 'macro' or (t == 'ref' and v[2] == 'gin.macro' and v[3]):
     name = v[1] if t == 'macro' else '/'.join(v[1])
     if name in b.cres:
-      return b.cres[name]
+      if consts is None or b.cres[name] not in consts:
+        raise Skip
+      return consts[b.cres[name]]
     if ('macro', name) not in binds:
       parts = name.split('/')
       if any(('macro', '/'.join(parts[:i])) in binds for i in range(1, len(parts))):
         raise Skip           # gin.macro.value bound under a scope that is a proper prefix of the name: C03's inheritance, not judged here
       raise KeyError(name)
-    return expect(binds[('macro', name)], binds, sels, runs, depth + 1)
+    return expect(binds[('macro', name)], binds, sels, runs, depth + 1, consts=consts)
   if t == 'ref':
     q = full_sel(v[2], sels)
     if q is None or not v[3]:
@@ -195,13 +220,13 @@ def expect(b, binds, sels, runs, depth=0, v=None):
     runs.append(q)
     return AnyRet(q)
   if t in ('l', 't'):
-    return T('L' if t == 'l' else 'T', *[expect(b, binds, sels, runs, depth, x) for x in v[1]])
+    return T('L' if t == 'l' else 'T', *[expect(b, binds, sels, runs, depth, x, consts) for x in v[1]])
   if t == 'd':
     items = []
     for k, x in v[1]:
-      ek = expect(b, binds, sels, runs, depth, k)
-      ex = expect(b, binds, sels, runs, depth, x)
-      if isinstance(ek, T) and ek.tag not in ('T', 'Obj'):
+      ek = expect(b, binds, sels, runs, depth, k, consts)
+      ex = expect(b, binds, sels, runs, depth, x, consts)
+      if (isinstance(ek, T) and ek.tag not in ('T', 'Obj')) or not hashable(ek):
         raise Skip             # unhashable key
       for it in items:
         if not isinstance(ek, AnyRet) and not isinstance(it[0], AnyRet) and it[0] == ek:
@@ -344,7 +369,87 @@ class MacroEngine(c01.CallEngine):
                 ['call', 'm.f', [], []], ['dumpcalls'], ['query', 'f.a'],
                 ['pbind', 'f.b', ['d', [[['i', 1], ['i', 2]], [['l', [['i', 1]]], ['macro', 'undefined']]]]],
                 ['pbind', 'f.b', ['l', [['d', [[['t', [['i', 1], ['l', []]]], ['i', 0]]]]]]],
-                ['call', 'm.f', [], []], ['finalize'], ['locked'], ['dumpcalls'], ['dumpconfig']]}]
+                ['call', 'm.f', [], []], ['finalize'], ['locked'], ['dumpcalls'], ['dumpconfig']]},
+            # constant histories.  %K is parsed while a.K is the only constant it can name: it IS a.K from then on; d.K, defined
+            # afterwards (legal: no suffix of an existing name), makes a NEW %K ambiguous (error, the binding stays) and leaves
+            # the parsed one alone, also where it is reached through a macro
+            {'regs': [f, g], 'ops': [
+                ['constant', 'a.K', ['obj', 'first']], ['pbind', 'f.a', ['macro', 'K']], ['pbind', 'mm', ['macro', 'K']],
+                ['call', 'm.f', [], []], ['constant', 'd.K', ['obj', 'later']], ['call', 'm.f', [], []],
+                ['pbind', 'f.b', ['macro', 'K']], ['call', 'm.f', [], []], ['pbind', 'f.b', ['l', [['macro', 'mm'], ['macro', 'd.K']]]],
+                ['call', 'm.f', [], []], ['query', 'f.a'], ['finalize'], ['locked'], ['dumpcalls'], ['dumpconfig']]},
+            # interactive mode accepts the bare name Y next to x.Y: the %Y parsed before (value, dict key, under the key) keeps
+            # delivering x.Y's object, a %Y parsed afterwards is the newcomer
+            {'regs': [f, g], 'ops': [
+                ['constant', 'x.Y', ['obj', 'first']], ['pbind', 'f.a', ['macro', 'Y']],
+                ['pbind', 'f.b', ['d', [[['macro', 'Y'], ['l', [['macro', 'Y']]]]]]], ['call', 'm.f', [], []],
+                ['interactive', [['constant', 'Y', ['obj', 'later']], ['call', 'm.f', [], []]]], ['call', 'm.f', [], []],
+                ['pbind', 'f.b', ['macro', 'Y']], ['call', 'm.f', [], []], ['constant', 'Y', ['i', 1]],
+                ['dumpcalls'], ['dumpconfig']]},
+            # three components, two abbreviations, a macro in between; then a name between the abbreviations and the first
+            # name again (interactive): the named value is the one defined last under the FULL name the reference resolved to
+            {'regs': [f, g], 'ops': [
+                ['constant', 'u.v.w.V', ['obj', 'first']], ['pbind', 'nn', ['macro', 'w.V']],
+                ['pbind', 'f.a', ['l', [['macro', 'nn'], ['macro', 'V']]]], ['call', 'm.f', [], []],
+                ['constant', 'zz.w.V', ['s', 'later']], ['call', 'm.f', [], []], ['pbind', 'f.b', ['macro', 'V']],
+                ['interactive', [['constant', 'v.w.V', ['obj', 'between']], ['constant', 'u.v.w.V', ['obj', 'again']]]],
+                ['call', 'm.f', [], []], ['pbind', 'f.b', ['macro', 'v.w.V']], ['call', 'm.f', [], []],
+                ['dumpcalls'], ['dumpconfig']]}]
+
+  def story_open(self, rng, consumer, ops, n):
+    """a constant history, first half: a constant with a dotted name is defined and referenced by a PROPER suffix that names
+    it uniquely now: as a parameter value, inside a list / a dict, as a dict key, or through a macro bound to it"""
+    base = rng.choice(STORY_CONSTS)
+    parts = base.split('.')
+    ab = '.'.join(parts[rng.randrange(1, len(parts)):])
+    ops.append(['constant', base, ['obj', 'first%d' % n] if rng.random() < 0.7 else ginm.gen_plain(rng, 0)])
+    args = consumer['sig']['args']
+    p = rng.choice(args)
+    for q in args:
+      if q != p and rng.random() < 0.7:
+        ops.append(['pbind', consumer['sel'] + '.' + q, ['i', 5]])
+    x = rng.random()
+    if x < 0.4:
+      v = ['macro', ab]
+    elif x < 0.55:
+      v = ['l', [['macro', ab], ['i', 0], ['macro', base if rng.random() < 0.5 else ab]]]
+    elif x < 0.65:
+      v = ['d', [[['s', 'k'], ['macro', ab]]]]
+    elif x < 0.75:
+      v = ['d', [[['macro', ab], ['l', [['macro', ab]]]]]]
+    else:
+      mm = rng.choice(MACROS)
+      ops.append(['pbind', mm, ['macro', ab]])
+      v = rng.choice([['macro', mm], ['t', [['macro', mm], ['macro', ab]]]])
+    ops.append(['pbind', consumer['sel'] + '.' + p, v])
+    if rng.random() < 0.5:
+      ops.append(['call', consumer['sel'], [], []])
+    return {'base': base, 'ab': ab}
+
+  def story_close(self, rng, story, consumer, ops, n):
+    """second half: a further constant that shares the abbreviation (another / a longer prefix: legal; inside
+    interactive_mode() the abbreviation itself, any suffix of the first name, or the first name again), then the earlier
+    reference is used, the same spelling is parsed once more (ambiguous now, or an exact match of the newcomer) and used"""
+    base, ab = story['base'], story['ab']
+    parts = base.split('.')
+    val = ['obj', 'later%d' % n] if rng.random() < 0.7 else ginm.gen_plain(rng, 0)
+    call = ['call', consumer['sel'], [], []]
+    x = rng.random()
+    if x < 0.35:
+      ops.append(['constant', rng.choice(STORY_PREFIXES) + '.' + ab, val])
+    elif x < 0.5:
+      ops.append(['constant', rng.choice(STORY_PREFIXES) + '.' + base, val])
+    else:
+      new = ab if x < 0.75 else '.'.join(parts[rng.randrange(1, len(parts)):]) if x < 0.9 else base
+      inner = [['constant', new, val]]
+      if rng.random() < 0.3:
+        inner.append(call)
+      ops.append(['interactive', inner])
+    ops.append(call)
+    ops.append(['pbind', consumer['sel'] + '.' + rng.choice(consumer['sig']['args']), ['macro', ab]])
+    if rng.random() < 0.3:
+      ops.append(['query', consumer['sel'] + '.' + rng.choice(consumer['sig']['args'])])
+    ops.append(call)
 
   def gen(self, rng, tier):
     regs = []
@@ -356,8 +461,18 @@ class MacroEngine(c01.CallEngine):
     ops = []
     defined_consts = []
     kc_defined = set()
+    story, nstories = None, 0
     for phase in range(rng.randint(1, 3)):
       for _ in range(rng.randint(1, 5)):
+        # constant histories (reference first, a constant sharing its suffix later), interleaved with everything else
+        if story is None and nstories < 2 and rng.random() < 0.06:
+          story = self.story_open(rng, consumer, ops, nstories)
+          nstories += 1
+          continue
+        if story is not None and rng.random() < 0.4:
+          self.story_close(rng, story, consumer, ops, nstories)
+          story = None
+          continue
         r = rng.random()
         if r < 0.35:      # definition
           m = rng.choice(MACROS)
@@ -463,6 +578,8 @@ class MacroEngine(c01.CallEngine):
         elif r < 0.85:    # constants
           nm = rng.choice(CONSTS + ['1bad', 'a..K', 'K\n', 'a.K\n'])
           ops.append(['constant', nm, ['obj', 'o%d' % len(defined_consts)] if rng.random() < 0.5 else ginm.gen_plain(rng, 0)])
+          if rng.random() < 0.12:
+            ops[-1] = ['interactive', [ops[-1]]]      # interactive mode: a duplicate / shadowing definition is accepted
           defined_consts.append(nm)
         else:
           k = rng.choice(CONSTS)
@@ -474,10 +591,22 @@ class MacroEngine(c01.CallEngine):
       ops.append(['call', consumer['sel'], [], []])
       if rng.random() < 0.3:
         ops.append(['with', rng.choice(ginm.SCOPES), [['call', consumer['sel'], [], []]]])
+    if story is not None:
+      self.story_close(rng, story, consumer, ops, nstories)
     if rng.random() < 0.5:
       ops.append(['finalize'] if rng.random() < 0.6 else ['with', rng.choice(['s1', 's1/s2']), [['finalize']]])   # also from inside a scope
     ops += [['dumpcalls'], ['dumpconfig']]
     return {'regs': regs, 'ops': ops}
+
+  @staticmethod
+  def cres_used(b, binds, depth=0):
+    """(abbreviation, full name) of every constant reference a use of the binding b reaches (through macros too)"""
+    out = list(b.cres.items())
+    if depth < 6:
+      for nm, _ in b.refs:
+        if ('macro', nm) in binds:
+          out += MacroEngine.cres_used(binds[('macro', nm)], binds, depth + 1)
+    return out
 
   def impl(self, case):
     m = ginm.Machine(mutate=False)
@@ -495,6 +624,19 @@ class MacroEngine(c01.CallEngine):
     sels = [c['sel'] for c in case['regs']]
     simple = all(o[0] in SIMPLE_OPS for o in ginm.flatten_ops(case['ops']))
     binds = {}       # ('macro', name) / ('param', scope, selector, parameter) -> Bound
+    # the ops that stand inside an interactive_mode() block (read off the program, not off gin's flag)
+    inter = set()
+    late_shared = set()   # (abbreviation, full name): a constant sharing the abbreviation was defined after the reference was parsed
+
+    def mark(ops, inside):
+      for o in ops:
+        if inside:
+          inter.add(id(o))
+        if o[0] == 'with':
+          mark(o[2], inside)
+        elif o[0] in ('unlock', 'interactive'):
+          mark(o[1], inside or o[0] == 'interactive')
+    mark(case['ops'], False)
     for t in m.trace:
       k, op, exc = t['kind'], t['op'], t['exc']
       if k == 'pbind' and exc is None and '.' not in op[1].rpartition('/')[2]:
@@ -514,13 +656,20 @@ class MacroEngine(c01.CallEngine):
         import re
         valid = bool(re.fullmatch(r'([a-zA-Z_]\w*\.)*[a-zA-Z_]\w*', name))
         dup = any(c == name or c.endswith('.' + name) for c in consts)
-        want_err = (not valid) or dup
-        tags.append('constant:' + ('invalid' if not valid else 'dup' if dup else 'ok'))
+        redef = dup and id(op) in inter        # interactive mode: definitions may be repeated / shadowed
+        want_err = (not valid) or (dup and not redef)
+        tags.append('constant:' + ('invalid' if not valid else 'redefined-interactively' if redef else 'dup' if dup else 'ok'))
         if want_err and exc is None:
           fails.append(('bad-constant-accepted', 'constant(%r) accepted; existing %r' % (name, sorted(consts))))
         if not want_err and exc is not None:
           fails.append(('valid-constant-rejected', 'constant(%r) raised %s; existing %r' % (name, exc, sorted(consts))))
         if exc is None:
+          # a reference parsed EARLIER by an abbreviation that would now be ambiguous, or name another constant
+          for b in binds.values():
+            for ab, full in b.cres.items():
+              if ab != full and full != name and (name == ab or name.endswith('.' + ab)):
+                tags.append('constant:shares-suffix-of-earlier-reference')
+                late_shared.add((ab, full))
           consts[name] = c01.canon_plain(op[2])
       if k == 'pbind' and op[2][0] == 'macro' and '.' in op[1].rpartition('/')[2]:
         # a %name whose name abbreviates constants: unique -> fine, several -> error
@@ -562,6 +711,39 @@ class MacroEngine(c01.CallEngine):
                             for key, b in binds.items() if any(nm in unbound or not ev for nm, ev in b.refs)][:3], unbound, uneval)))
       if k == 'call' and t['depth'] >= 0:
         ctx = next(call_iter, None)
+        if ctx is not None and simple and not op[2] and not op[3] and ctx['sel'] in sels:
+          # does this call use a constant reference whose abbreviation has been taken by a later constant too
+          if any(key[0] == 'param' and key[2] == ctx['sel'] and any((ab, full) in late_shared for ab, full in self.cres_used(b, binds))
+                 for key, b in binds.items()):
+            nontrivial = True
+            tags.append('call:uses-reference-parsed-before-a-constant-sharing-its-suffix')
+        if ctx is not None and 'error' in ctx and simple and not op[2] and not op[3] and ctx['sel'] in sels:
+          # the call RAISED.  From the op list alone: if every current binding of this configurable is unscoped, names one
+          # of its parameters and has a value the op list decides (every %m has a last definition, every constant reference
+          # named exactly one constant when it was parsed, every dict key can be hashed, no helper that runs has bindings of
+          # its own), then nothing in the configuration can raise: the values must be delivered
+          runs, decided, wants = [], True, []
+          params = regs_by_sel[ctx['sel']]['sig']['args']
+          for key, b in binds.items():
+            if key[0] != 'param':
+              continue
+            if key[2] != ctx['sel']:
+              continue
+            if key[1] or key[3] not in params:
+              decided = False
+              break
+            try:
+              wants.append((key[3], ginm.val_text(b.v), expect(b, binds, sels, runs, consts=consts)))
+            except (KeyError, Skip):
+              decided = False
+              break
+          if any(key[0] == 'param' and key[2] != ctx['sel'] and key[2] in runs for key in binds):
+            decided = False
+          if decided and wants:
+            fails.append(('bound-value-not-delivered', 'the call of %s raised %s; its bindings %r are all decided by the op list '
+                          '(constants defined so far: %r; a %%name names a constant from the moment it is parsed) and require the '
+                          'values %r to be delivered' % (ctx['sel'], ctx['error'], ['%s = %s' % (p_, tx) for p_, tx, _ in wants],
+                                                         sorted(c for c in consts if c != 'gin.REQUIRED'), [w for _, _, w in wants])))
         if ctx is None or 'error' in ctx or ctx['log_end'] == ctx['log_start']:
           continue
         own = m.log[ctx['log_end'] - 1]
@@ -578,7 +760,7 @@ class MacroEngine(c01.CallEngine):
               decided = False        # scoped bindings: left to the other predicates
               continue
             try:
-              want = expect(b, binds, sels, runs)
+              want = expect(b, binds, sels, runs, consts=consts)
             except KeyError as e:
               fails.append(('macro-use-wrong-value', 'parameter %r = %s uses the macro %s, which no definition binds; the call '
                             'succeeded and delivered %r' % (prm, ginm.val_text(b.v), e, env[prm])))
@@ -637,6 +819,8 @@ class MacroEngine(c01.CallEngine):
               mv = mvals.get('/'.join(mv.args[0]))
             if mv is None:
               ok = False
+            elif isinstance(mv, T) and mv.tag == 'Ref' and mv.args[1] == 'gin.constant':
+              pass                   # a macro bound to a constant: a lookup, no helper runs
             elif isinstance(mv, T) and mv.tag == 'Ref' and mv.args[2]:
               want_runs += 1
             elif c04.refs_in(mv) and any(r.args[2] for r in c04.refs_in(mv)):
